@@ -8,7 +8,7 @@
    NOT proved: numerical values (inverse MDCT, window, floor-0 curve, dB table)
    - they are compared per run (exactly before the inverse MDCT, with a
    tolerance after it); see MANIFEST level note. *)
-From VV Require Import SrcFacts Bits Pcm Fl Setup Codebook PacketDec Blocking Decoder_lemmas.
+From VV Require Import SrcFacts Bits Pcm Fl Setup Codebook PacketDec Blocking Decoder_lemmas Floor1_lemmas.
 From Coq Require Import ZArith List Bool.
 Import ListNotations.
 Local Open Scope Z_scope.
@@ -59,6 +59,16 @@ Theorem C01_floor1_curve_covers :
   forall n mult rangebits posts fit, 0 <= n -> length (floor1_curve n mult rangebits posts fit) = Z.to_nat n.
 Proof. exact floor1_curve_length. Qed.
 Print Assumptions C01_floor1_curve_covers.
+
+(* floor 1: the integer line algorithm of the reference code (Bresenham with
+   error accumulation) yields, at EVERY x of a segment, exactly the value the
+   specification defines point-wise (render_point): y0 +- |dy|*(x-x0)/adx *)
+Theorem C01_render_line_is_interpolation :
+  forall n x0 x1 y0 y1 x, x0 < x1 -> 0 <= y0 < 32768 -> 0 <= y1 < 32768 ->
+    x0 <= x < (if n >? x1 then x1 else n) ->
+    nth (Z.to_nat (x - x0)) (render_line n x0 x1 y0 y1) 0 = render_point x0 x1 y0 y1 x.
+Proof. exact render_line_eq_point. Qed.
+Print Assumptions C01_render_line_is_interpolation.
 
 (* non-vacuity: a 3-entry book (lengths 1,2,2), the bits 1,0 decode to entry 1 *)
 Example C01_nonvacuous :
